@@ -55,6 +55,9 @@ def generate(rnd, phrases, n):
             out.append("%s %s" % (rnd.choice(["1", "2", "1.0", "0.5", "3/3", "10"]), u))
         else:
             out.append(rnd.choice(["1 +", "(1 + 2", "2 m + 3 s", "1 / 0", "foo bar baz", "1 ft to s", "0 ^ -1", "round()", "1 2 3", ") 5", "5 $ 6"]))
+        if rnd.random() < 0.08:
+            # blanks in front of and behind the query: the ranges of the library are ranges in the query as given
+            out[-1] = " " * rnd.randint(1, 3) + out[-1] + " " * rnd.randint(0, 2)
     return out
 
 
@@ -111,7 +114,8 @@ def run(chk):
     phrases = factlib.phrases(facts)
     rnd = random.Random(chk.seed + 19)
     queries = generate(rnd, phrases, p["queries"]) + ["10 / 2s", "4 m/decade", "3 J/century", "2 m^12", "1 m^10", "1 /s^13", "2 * pi", "pi", "speed of light", "1 decade", "2 decade",
-                                                     "1 decades/s", "7 / 2", "1 / 3 m", "2 m^0", "2 decade m^0", "2 decade^0 m", "(1/0) (2/0) (3)", "(foo) (3m) (foo)", "123456789", "1c to m/s", "0.000000001234", "12345678901 m"]
+                                                     "1 decades/s", "7 / 2", "1 / 3 m", "2 m^0", "2 decade m^0", "2 decade^0 m", "(1/0) (2/0) (3)", "(foo) (3m) (foo)", "123456789", "1c to m/s", "0.000000001234", "12345678901 m",
+                                                     " (1m + 1s) (2m)", "  1 / 0", " 2 m + 3 s ", "   (1) (1 ft to s)  ", " foo bar baz"]
     w = vlib.workdir("c19-run")
     inp, out = os.path.join(w, "queries.ndjson"), os.path.join(w, "rec.ndjson")
     vlib.write_ndjson(inp, queries)
@@ -136,7 +140,7 @@ def run(chk):
     chk.cov["diagnostic_blocks_prescribed_in_full"] = sum(1 for r in recs if r.get("plain") for x in r["results"] if x["k"] == "err")
     chk.cov["distinct_error_ranges_underlined"] = len({(x["s"], x["e"]) for r in recs if r.get("plain") for x in r["results"] if x["k"] == "err"})
     chk.cov["exhaustive"] = False
-    chk.cov["rule"] = ("one evaluation = one run of the real binary (modes default / --exact / --describe / the flag behind the query, in rotation; --syntax in a pass of its own) compared with the library's in-process results; "
+    chk.cov["rule"] = ("one evaluation = one run of the real binary (modes default / --exact / --describe / the flag behind the query / the query handed over in blank-separated pieces, in rotation; --syntax in a pass of its own) compared with the library's in-process results; "
                        "queries: numeric expressions, quantities over the whole vocabulary, fact phrases, comma-separated lists with values and errors, "
                        "pluralisable and denominator-only units, malformed input; non-trivial = >= 2 results or a value with a unit, distinct by (mode, text)")
     for r in recs[:3]:
